@@ -10,12 +10,13 @@
 using namespace ef;
 static mcx::Report R;
 
-static const char OPS[] = {'0', '1', '2', '3', 'W', 'D', 'C', 'F'};
+static const char OPS[] = {'0', '1', '2', '3', '4', 'W', 'D', 'C', 'F'};
 static unsigned NBCUR = 1;   // profile 3: the last bunch of the train holds no charge at all (every bin zero), the others a dense profile
 struct Out { std::vector<float> wake, pad, specC, specF; float powC = 0, powF = 0; };
 
 static std::vector<float> profile(unsigned n, unsigned b, int i) {
     std::vector<float> p(n);
+    if (i == 4) { if (b == 0) return profile(n, 0, 1); for (unsigned x = 0; x < n; x++) p[x] = 0.05f + std::fabs(std::sin(1.9f * x + 2 * b)); return p; }   // profile 4: the first bunch as in profile 1 (bit-identical), the others different
     if (i == 3) { if (b + 1 == NBCUR) return p; for (unsigned x = 0; x < n; x++) p[x] = 0.3f + std::fabs(std::cos(0.7f * x + b)); return p; }
     for (unsigned x = 0; x < n; x++) p[x] = i == 0 ? (x == (1 + b) % n ? 1.f : 0.f) : i == 1 ? 0.1f + std::fabs(std::sin(0.9f * x + b)) : (float)((x * 5 + b * 3) % 7) / 7.f + (x == n - 1 ? 2.f : 0.f);
     return p;
@@ -24,7 +25,7 @@ static float cutoff(Rig& r) { return (float)(0.5 * r.f->getFreqRuler()->scale("H
 
 static void apply_op(Rig& r, char op, int& cur) {
     switch (op) {
-    case '0': case '1': case '2': case '3': cur = op - '0'; NBCUR = r.c.nb; for (unsigned b = 0; b < r.c.nb; b++) r.set_profile(b, profile(r.c.n, b, cur)); break;
+    case '0': case '1': case '2': case '3': case '4': cur = op - '0'; NBCUR = r.c.nb; for (unsigned b = 0; b < r.c.nb; b++) r.set_profile(b, profile(r.c.n, b, cur)); break;
     case 'W': r.f->wakePotential(); break;
     case 'D': r.f->padBunchProfiles(); break;
     case 'C': r.f->updateCSR(0); break;
@@ -61,7 +62,7 @@ int main(int argc, char** argv) {
     const bool T = true /* the wide lattices run in both tiers */; const bool D = R.thorough(); (void)D;
     const unsigned maxdepth = D ? 18 : 14;
     std::vector<Cfg> cfgs;
-    for (unsigned N : (D ? std::vector<unsigned>{16, 24, 30, 32, 33, 37, 64, 75, 128, 150, 255, 256} : std::vector<unsigned>{16, 24, 30, 32, 33, 37, 64})) {
+    for (unsigned N : (D ? std::vector<unsigned>{16, 24, 30, 32, 33, 37, 64, 75, 128, 150, 255, 256} : std::vector<unsigned>{16, 30, 33, 64})) {
         cfgs.push_back(Cfg{4, 1, N, 0, {0}});       // as main() builds the radiation field
         cfgs.push_back(Cfg{4, 1, N, 5, {1}});       // single bunch not in bucket 0
         cfgs.push_back(Cfg{4, 2, N, 5, {1, 0}});
@@ -77,8 +78,8 @@ int main(int argc, char** argv) {
         if (R.out_of_time()) { R.not_completed = kase; break; }
         ZKIND = zk;
         // reference outputs of fresh objects: (profile, op)
-        Out fresh[4];
-        for (int p = 0; p < 4; p++) for (char op : {'W', 'D', 'C', 'F'}) {
+        Out fresh[5];
+        for (int p = 0; p < 5; p++) for (char op : {'W', 'D', 'C', 'F'}) {
             Rig r(c); set_impedance(r); int cur = -1; apply_op(r, (char)('0' + p), cur); apply_op(r, op, cur);
             Out o; grab(r, op, o);
             if (op == 'W') { fresh[p].wake = o.wake; } if (op == 'D') fresh[p].pad = o.pad; if (op == 'C') fresh[p].specC = o.specC; if (op == 'F') fresh[p].specF = o.specF;
@@ -95,10 +96,11 @@ int main(int argc, char** argv) {
             std::string hist = frontier.front(); frontier.pop_front();
             if (hist.size() >= maxdepth) { reached_bound = true; continue; }
             for (char op : OPS) {
-                if (hist.empty() && !(op >= '0' && op <= '3')) continue;   // a profile must be set first
+                if (hist.empty() && !(op >= '0' && op <= '4')) continue;   // a profile must be set first
+                if (op == '4' && c.nb < 2) continue;                               // (for a single bunch profile 4 is profile 1)
                 std::string h2 = hist + op;
                 Rig r(c); set_impedance(r); int cur = -1; unsigned requested = 0;
-                for (char o : h2) { apply_op(r, o, cur); if (o >= '0' && o <= '3') requested = 0; else requested |= (o == 'W' ? 1 : o == 'D' ? 2 : o == 'C' ? 4 : 8); }
+                for (char o : h2) { apply_op(r, o, cur); if (o >= '0' && o <= '4') requested = 0; else requested |= (o == 'W' ? 1 : o == 'D' ? 2 : o == 'C' ? 4 : 8); }
                 transitions++;
                 // invariant for the output just requested (outputs requested earlier were checked when they were requested; a later
                 // operation overwriting them is legitimate only for C/F which share the spectrum buffer)
@@ -169,6 +171,6 @@ int main(int argc, char** argv) {
         states += seen.size();
     }
     R.numbers["states"] = (double)states; R.numbers["transitions"] = (double)transitions; R.numbers["sum_configurations_closed"] = (double)closed; R.numbers["deepest_history"] = deepest;
-    R.bound_done("BFS over {P0,P1,P2,P3 (last bunch empty),W,D,C,F} histories to closure or depth " + std::to_string(maxdepth) + " per configuration; " + std::to_string(cfgs.size()) + " configurations x impedance table shapes {zero above N/2, short table, full spectrum}");
+    R.bound_done("BFS over {P0,P1,P2,P3 (last bunch empty),P4 (first bunch as in P1, the others changed),W,D,C,F} histories to closure or depth " + std::to_string(maxdepth) + " per configuration; " + std::to_string(cfgs.size()) + " configurations x impedance table shapes {zero above N/2, short table, full spectrum}");
     return R.finish();
 }
